@@ -169,6 +169,19 @@ func cmdCheck(args []string) int {
 			nLemmas++
 		}
 	}
+	for _, b := range eng.bindings {
+		if hasProp(b.Props) {
+			if *only != "" && !strings.Contains(b.Pred, *only) {
+				continue
+			}
+			vc := eng.verifyBinding(b)
+			if vc.failed != nil {
+				failedVC = append(failedVC, vc.failed.Error())
+			}
+			vcs = append(vcs, vc)
+			nLemmas++
+		}
+	}
 	if len(failedVC) > 0 {
 		for _, f := range failedVC {
 			fmt.Fprintln(os.Stderr, "govc: cannot decide:", f)
@@ -183,7 +196,7 @@ func cmdCheck(args []string) int {
 	outDir := filepath.Join(*verif, "out", ps.ID)
 	os.RemoveAll(outDir)
 	timeout := 10
-	workers := 6
+	workers := 8
 	if *tier == "thorough" {
 		timeout = 120
 	}
